@@ -258,6 +258,9 @@ def lit(v):
             return np.nan
         if "dict" in v:
             return {k: lit(x) for k, x in v["dict"]}
+        if "catdtype" in v:
+            # a CategoricalDtype INSTANCE without categories (same meaning as the string "category")
+            return pd.CategoricalDtype(**v["catdtype"])
     if isinstance(v, list):
         return [lit(x) for x in v]
     return v
